@@ -32,12 +32,18 @@ def main():
               b("or", match(["k"], "==", "c"), match(["v", "V"], "==", "2")), match(["k"], "matches", "^[bc]"), match(["k"], "==", "k4"),
               b("or", match(["k"], "==", "e4"), match(["top"], "==", "x")),
               coll("any", ["v"], "both", "k2", "v2", match(["v2", "V"], "==", "2")), coll("all", ["v"], "default", "k2", "", b("or", match(["k2"], "==", "c1"), match(["zz"], "==", "1")))]
+    # membership and emptiness tests whose implementation may range over a map
+    singles = [match(["ifk"], op, l) for op in ("in", "notin") for l in ("x", "5", "abc", "2.5", "true", "1e999")] + \
+              [match([k], op, l) for k in ("ifl", "m3", "mi", "ms", "im3", "nk3", "mix") for op in ("in", "notin") for l in ("x", "a", "1", "5")] + \
+              [match([k], "empty") for k in ("ifk", "im3", "m8", "mix")]
+    nb = len(bodies)
+    bodies = bodies + singles
     colls = []
-    for p in (["m2"], ["m2b"], ["m3"], ["m3b"], ["m4"], ["m5"], ["m8"], ["ok3"], ["mm"], ["ms"], ["mi"], ["mix"], ["keys"], ["l", "0"], ["l", "1"], ["mm", "r2"]):
+    for p in (["m2"], ["m2b"], ["m3"], ["m3b"], ["m4"], ["m5"], ["m8"], ["ok3"], ["mm"], ["ms"], ["mi"], ["mix"], ["keys"], ["l", "0"], ["l", "1"], ["mm", "r2"], ["im3"], ["nk3"], ["ifk"]):
         for op in ("any", "all"):
             for mode, n1, n2 in (("default", "k", ""), ("index", "k", ""), ("value", "", "v"), ("both", "k", "v")):
                 colls.append({"op": op, "sel": {"ty": "bexpr", "path": p}, "mode": mode, "n1": n1, "n2": n2})
-    world = vlib.make_world(["maps"], data["docs"], data["cfgs"], [0], bodies, list(range(len(bodies))), colls, 2)
+    world = vlib.make_world(["maps"], data["docs"], data["cfgs"], [0], bodies, list(range(nb)), colls, 2)
     summ, bad = vlib.run_relate(chk, "c14", world, "c14", extra=["-reps", str(reps)])
     chk.cov["evaluations"] += summ["evals"]
     mixed = 0
@@ -63,9 +69,9 @@ def main():
         chk.violation({"law": "repetitions of one Execute agree", **v})
     chk.cov["distinct_nontrivial"] = mixed + fr["cases"]
     chk.notes["repetitions_per_case"] = reps
-    chk.notes["rule"] = ("quantifier shells (any/all x 4 binding modes) over %d map-shaped paths (2..8 entries, nested, inside lists) x %d bodies, each "
+    chk.notes["rule"] = ("quantifier shells (any/all x 4 binding modes) over %d map-shaped paths (2..8 entries, nested, inside lists, int / named / interface keys) x %d bodies and membership tests, each "
                          "evaluated %d times on one evaluator; %d Execute cases over maps repeated likewise; with two or more visiting orders that "
-                         "differ in outcome, %d independent orders agree with probability < 2^-%d" % (16, len(bodies), reps, fr["cases"], reps, reps - 1))
+                         "differ in outcome, %d independent orders agree with probability < 2^-%d" % (19, len(bodies), reps, fr["cases"], reps, reps - 1))
     return chk.finish()
 
 
